@@ -1,39 +1,112 @@
 /-
-C02 (call sites) — driver for the SheddingHandler harness.
-  op:  req allow=<0/1> code=<n> panic=<0/1>     obs: status=<n> ran=<0/1> early=<n> pass=<n> fail=<n>
-Model of rest/handler/sheddinghandler.go: refused → 503, next handler not run, promise never touched;
-admitted → next handler runs with the promise unresolved, then exactly one resolution: Fail if the response
-code is 503, Pass otherwise (also when the handler panics: the resolution sits in a defer).
+C02 (call sites) — driver for the SheddingHandler (HTTP) and UnarySheddingInterceptor (zRPC) harnesses.
+
+  op:  req allow=<0/1> code=<n> panic=<0/1> [body=<0/1>] [again=<n>] [nilshed=<0/1>]
+  obs: status=<n> ran=<0/1> early=<n> pass=<n> fail=<n> allows=<n> st=<total>/<pass>/<drop> | st=reset
+Model of rest/handler/sheddinghandler.go: nil shedder → the next handler is used as is (no Allow, no stat);
+refused → 503, next handler not run, promise never touched; admitted → next handler runs with the promise
+unresolved, then exactly one resolution: Fail if the last status code the handler set is 503, Pass otherwise
+(also when the handler panics: the resolution sits in a defer).
+
+  op:  rpc allow=<0/1> err=<kind> panic=<0/1>
+  obs: ret=<nil|same|ResourceExhausted:service-overloaded|panic|…> ran= early= pass= fail= allows= st=
+Model of zrpc/internal/serverinterceptors/sheddinginterceptor.go: refused → status ResourceExhausted carrying
+ErrServiceOverloaded's text, handler not run; admitted → handler runs with the promise unresolved, its value and
+error are returned unchanged, then exactly one resolution in a defer: Fail iff the handler's error
+`errors.Is` context.DeadlineExceeded (bare, wrapped or joined), Pass otherwise (also on nil, on gRPC status
+errors including codes.DeadlineExceeded, and when the handler panics: the named result is still nil then).
+
+The package-level SheddingStat counters are observed as deltas (total +1 per call, pass +1 with Pass,
+drop +1 with a refusal); they are not part of the shedder model (`st=reset`: the reporter goroutine zeroed
+them during the call — accepted).
 -/
 import GoZero.Base.Trace
 namespace GoZero.C02H
 open GoZero
 
+/-- error kinds of the rpc harness for which `errors.Is(err, context.DeadlineExceeded)` holds. -/
+def isDeadline (kind : String) : Bool := kind = "deadline" || kind = "wrapped" || kind = "joined"
+
+def knownErrKinds : List String :=
+  ["nil", "deadline", "wrapped", "joined", "canceled", "stdeadline", "internal", "unavailable", "exhausted", "plain"]
+
+/-- the call-site monitor shared by both harnesses: an admitted request is resolved exactly once and only
+after its handler; a refused one is neither handled nor resolved; Allow is asked exactly once. -/
+def callSiteMonitor (r : Report) (sec line : Nat) (allow : Bool) (obs : List String) : Report := Id.run do
+  let mut r := r
+  let ip := kvNat obs "pass" 99
+  let ifl := kvNat obs "fail" 99
+  if allow ∧ ip + ifl ≠ 1 then
+    r := r.violation sec line s!"admitted request resolved {ip + ifl} times (pass={ip} fail={ifl})"
+  if allow ∧ kvNat obs "early" 99 ≠ 0 then
+    r := r.violation sec line "promise resolved while the request was still being handled"
+  if !allow ∧ (ip + ifl ≠ 0 ∨ kvNat obs "ran" 99 ≠ 0) then
+    r := r.violation sec line "refused request was handled or resolved"
+  if kvNat obs "allows" 99 ≠ 1 then
+    r := r.violation sec line s!"Allow was called {kvNat obs "allows" 99} times for one request"
+  return r
+
+def stripSt (obs : List String) : List String := obs.filter fun t => !t.startsWith "st="
+
 def runSection (r : Report) (s : Section) : Report := Id.run do
   let mut r := r
   for l in s.lines do
     r := { r with ops := r.ops + 1 }
+    if l.obs.head? = some "PANIC" then
+      -- the harness itself failed on this line (the handlers' own panics are recovered and reported as data)
+      r := r.mismatch s.idx l.idx "an observation" (joinSp l.obs)
+      continue
     match l.op with
     | "req" :: args =>
       match (kv? args "allow").bind String.toNat?, (kv? args "code").bind String.toNat?, (kv? args "panic").bind String.toNat? with
       | some allow, some code, some pn =>
-        let status := if allow = 0 then 503 else if code = 0 then 200 else code
-        let ran := if allow = 0 then 0 else 1
-        let fail := if allow = 1 ∧ code = 503 then 1 else 0
-        let pass := if allow = 1 ∧ code ≠ 503 then 1 else 0
-        let model := s!"status={status} ran={ran} early=0 pass={pass} fail={fail}"
-        r := r.addCover (if allow = 0 then "refused" else if pn = 1 then (if code = 503 then "panic-after-503" else "panic")
-                         else if code = 503 then "handler-503" else "handler-ok")
-        if joinSp l.obs ≠ model then r := r.mismatch s.idx l.idx model (joinSp l.obs)
-        -- monitor: an admitted request is in flight while handled and resolved exactly once; a refused one never
-        let ip := kvNat l.obs "pass" 99
-        let ifl := kvNat l.obs "fail" 99
-        if allow = 1 ∧ ip + ifl ≠ 1 then
-          r := r.violation s.idx l.idx s!"admitted request resolved {ip + ifl} times (pass={ip} fail={ifl})"
-        if allow = 1 ∧ kvNat l.obs "early" 99 ≠ 0 then
-          r := r.violation s.idx l.idx "promise resolved while the request was still being handled"
-        if allow = 0 ∧ (ip + ifl ≠ 0 ∨ kvNat l.obs "ran" 99 ≠ 0) then
-          r := r.violation s.idx l.idx "refused request was handled or resolved"
+        let body := kvNat args "body" 0 = 1
+        let again := kvNat args "again" 0
+        let nilshed := kvNat args "nilshed" 0 = 1
+        -- what net/http puts on the wire: the first status wins (a body write implies 200)
+        let wire := if code ≠ 0 then code else if body then 200 else if again ≠ 0 then again else 200
+        -- what the shedding wrapper remembers: the last WriteHeader
+        let cw := if again ≠ 0 then again else if code ≠ 0 then code else 200
+        let (model, st) :=
+          if nilshed then (s!"status={wire} ran=1 early=0 pass=0 fail=0 allows=0", "st=0/0/0")
+          else if allow = 0 then ("status=503 ran=0 early=0 pass=0 fail=0 allows=1", "st=1/0/1")
+          else if cw = 503 then (s!"status={wire} ran=1 early=0 pass=0 fail=1 allows=1", "st=1/0/0")
+          else (s!"status={wire} ran=1 early=0 pass=1 fail=0 allows=1", "st=1/1/0")
+        r := r.addCover (if nilshed then "http-nil-shedder" else if allow = 0 then "refused"
+                         else if pn = 1 then (if cw = 503 then "panic-after-503" else "panic")
+                         else if cw = 503 then "handler-503" else "handler-ok")
+        if again ≠ 0 ∧ !nilshed ∧ allow = 1 then r := r.addCover (if wire = cw then "http-second-header-same" else "http-second-header-differs")
+        if body then r := r.addCover "http-body"
+        let gotSt := kvStr l.obs "st"
+        if gotSt = "reset" then r := r.addCover "stat-reset"
+        if joinSp (stripSt l.obs) ≠ model ∨ (gotSt ≠ "reset" ∧ s!"st={gotSt}" ≠ st) then
+          r := r.mismatch s.idx l.idx s!"{model} {st}" (joinSp l.obs)
+        if !nilshed then r := callSiteMonitor r s.idx l.idx (allow = 1) l.obs
+        -- the documented refusal: 503 Service Unavailable
+        if !nilshed ∧ allow = 0 ∧ kvNat l.obs "status" 0 ≠ 503 then
+          r := r.violation s.idx l.idx s!"refused request did not get 503 (status={kvNat l.obs "status" 0})"
+      | _, _, _ => r := r.mismatch s.idx l.idx "bad-op" (joinSp l.op)
+    | "rpc" :: args =>
+      match (kv? args "allow").bind String.toNat?, kv? args "err", (kv? args "panic").bind String.toNat? with
+      | some allow, some kind, some pn =>
+        if !knownErrKinds.contains kind then r := r.mismatch s.idx l.idx "bad-op" (joinSp l.op) else
+        let dl := isDeadline kind && pn = 0
+        let (model, st) :=
+          if allow = 0 then ("ret=ResourceExhausted:service-overloaded ran=0 early=0 pass=0 fail=0 allows=1", "st=1/0/1")
+          else
+            let ret := if pn = 1 then "panic" else if kind = "nil" then "nil" else "same"
+            if dl then (s!"ret={ret} ran=1 early=0 pass=0 fail=1 allows=1", "st=1/0/0")
+            else (s!"ret={ret} ran=1 early=0 pass=1 fail=0 allows=1", "st=1/1/0")
+        r := r.addCover (if allow = 0 then "rpc-refused" else if pn = 1 then "rpc-panic" else s!"rpc-err-{kind}")
+        if allow = 1 then r := r.addCover (if dl then "rpc-fail" else "rpc-pass")
+        let gotSt := kvStr l.obs "st"
+        if gotSt = "reset" then r := r.addCover "stat-reset"
+        if joinSp (stripSt l.obs) ≠ model ∨ (gotSt ≠ "reset" ∧ s!"st={gotSt}" ≠ st) then
+          r := r.mismatch s.idx l.idx s!"{model} {st}" (joinSp l.obs)
+        r := callSiteMonitor r s.idx l.idx (allow = 1) l.obs
+        -- the documented refusal: a ResourceExhausted status
+        if allow = 0 ∧ !(kvStr l.obs "ret").startsWith "ResourceExhausted:" then
+          r := r.violation s.idx l.idx s!"refused rpc did not return codes.ResourceExhausted (ret={kvStr l.obs "ret"})"
       | _, _, _ => r := r.mismatch s.idx l.idx "bad-op" (joinSp l.op)
     | _ => r := r.mismatch s.idx l.idx "bad-op" (joinSp l.op)
   return r
